@@ -581,6 +581,67 @@ def rule_narrowcast(ctx):
     ctx.floor(rid + ".casts", 3)
 
 
+def rule_orient_region(ctx):
+    """Region::apply_orientation maps a rectangle of the displayed image to the rectangle of stored pixels it shows"""
+    from .. import absint
+    rid = "R-ORIENT-REGION"
+    ctx.rule(rid, "a requested rectangle is given in displayed (oriented) coordinates; Region::apply_orientation has to return the "
+                  "rectangle of stored pixels that are displayed inside it.  For each of the eight orientations and five rectangles of "
+                  "a 44x28 stored image (interior, one pixel, touching each far edge, the full image) the function is evaluated from "
+                  "MIR over concrete integers (nothing is run: comparisons, the helper calls into jxl_image, mem::swap and abs_diff are "
+                  "interpreted) and compared with the preimage computed by brute force from the EXIF definition of the orientation.  "
+                  "Using the forward map instead of the inverse one is invisible for the six self-inverse orientations and for "
+                  "full-image requests, and wrong for every crop of a 90-degree rotated image")
+    f = ctx.prog.fn("jxl_render::region::Region::apply_orientation")
+    if f is None or f.argc != 2 or "Region" not in str(f.local_ty(1)) or "ImageHeader" not in str(f.local_ty(2)):
+        ctx.anchor_missing(rid, "jxl_render::region::Region::apply_orientation(self, &ImageHeader)")
+        return
+    ctx.seen(f)
+    adt = ctx.prog.crate("jxl_render").adts.get("jxl_render::region::Region")
+    names = [x[0] for x in adt["variants"][0]["fields"]] if adt else []
+    if sorted(names) != ["height", "left", "top", "width"]:
+        ctx.anchor_missing(rid, "Region { left, top, width, height }")
+        return
+    W, H = 44, 28
+
+    def fwd(k, x, y):
+        return {1: (x, y), 2: (W - 1 - x, y), 3: (W - 1 - x, H - 1 - y), 4: (x, H - 1 - y),
+                5: (y, x), 6: (H - 1 - y, x), 7: (H - 1 - y, W - 1 - x), 8: (y, W - 1 - x)}[k]
+
+    rows, bad, undec = 0, [], None
+    for k in range(1, 9):
+        ow, oh = (W, H) if k <= 4 else (H, W)
+        rects = [(3, 5, 7, 4), (ow - 1, oh - 1, 1, 1), (ow - 6, 2, 6, 9), (1, oh - 3, 5, 3), (0, 0, ow, oh)]
+        for (l, t, w, h) in rects:
+            pre = [(x, y) for x in range(W) for y in range(H) if l <= fwd(k, x, y)[0] < l + w and t <= fwd(k, x, y)[1] < t + h]
+            xs, ys = [p[0] for p in pre], [p[1] for p in pre]
+            want = {"left": min(xs), "top": min(ys), "width": max(xs) - min(xs) + 1, "height": max(ys) - min(ys) + 1}
+            given = {"left": l, "top": t, "width": w, "height": h}
+            ev = absint.Evaluator(ctx.prog, ext=lambda path, k=k: {"orientation": k, "width": W, "height": H}.get(path[-1], absint.UNKNOWN))
+            try:
+                r = ev.call_fn(f, [absint.Struct([given[n] for n in names]), absint.Ref(("ext", "image_header"))])
+                got = dict(zip(names, r.fields)) if isinstance(r, absint.Struct) else None
+            except absint.Unsupported as e:
+                undec = "orientation %d: %s" % (k, e)
+                break
+            rows += 1
+            if got != want:
+                bad.append((k, given, got, want))
+        if undec:
+            break
+    ctx.count(rid + ".rows", rows)
+    if undec:
+        ctx.bad(rid, "apply_orientation|not-evaluable", "Region::apply_orientation is no longer a function the evaluator can decide (%s)" % undec, fn=f)
+        return
+    ctx.floor(rid + ".rows", 40)
+    if not bad:
+        ctx.ok(rid, "apply_orientation|preimage", "40 evaluations equal the brute-force preimage", nontrivial=True, fn=f)
+    else:
+        k, given, got, want = bad[0]
+        ctx.bad(rid, "apply_orientation|preimage", "orientation %d, requested %s of the displayed image: returns %s, the stored pixels shown there are %s "
+                "(%d of %d evaluations differ)" % (k, given, got, want, len(bad), rows), fn=f)
+
+
 def main(pid, tier, repo=None):
     ctx = Ctx(pid, tier, configs=("workspace",), repo=repo)
     rule_orient(ctx)
@@ -589,6 +650,7 @@ def main(pid, tier, repo=None):
     rule_narrowcast(ctx)
     rule_stream_cursor(ctx)
     rule_int_fastpath(ctx)
+    rule_orient_region(ctx)
     from . import c05
     c05.rule_orient_scope(ctx)        # the orientation is applied at the API boundary only
     ctx.not_decided("float->integer rounding; sample-by-sample equality between interleaved, planar and stream outputs")
